@@ -135,12 +135,14 @@ package rle
 // ---- decoder (operates on in-memory readers only)
 
 //@ func (*RLE).Read
+//@   verify[C04]
 //@   requires r != nil && dyn(in) == typeid("*bytes.Buffer") && payload(in) != 0
+//@   requires[C04] 1 <= r.bitWidth && r.bitWidth <= 4
 //@   modifies obj(in), rfault
 //@   ensures freshOrNil(res0)
 //@   ensures[C10] err == nil ==> (rfault ==> old(rfault))
 //@ loop (*RLE).Read#1
-//@   invariant freshOrNil(out) && rr != nil && freshsince(rr) && (rfault ==> old(rfault))
+//@   invariant freshOrNil(out) && rr != nil && freshsince(rr) && (rfault ==> old(rfault)) && r.bitWidth == old(r.bitWidth)
 
 // C04: a bit-packed run of any number of groups (the header is an unbounded varint; other
 // writers emit more than 63 groups per run) is decoded group by group without leaving
